@@ -18,16 +18,21 @@ package jen
 
 //@ func (*File).isValidAlias [C03,C05,C06]
 //@   requires f != nil
-//@   ensures [C03,C05,C06] spec: result == (alias == "." || (!isReserved(alias) && (forall p string :: has(f.imports, p) ==> f.imports[p].name != alias)))
+//@   ensures [C03,C05,C06] spec: result == (alias == "." || (!isReserved(alias) && alias != "C" && (forall p string :: has(f.imports, p) ==> f.imports[p].name != alias)))
 //@   loop 1 invariant seen: forall j int :: (0 <= j && j < $i) ==> $m[$ks[j]].name != alias
 
 //@ func (*File).isDotImport [C06,C08,C19]
 //@   requires f != nil
 //@   ensures [C06] hint: result == isDotHint(mapof(f.hints), path)
 
+//@ func (*File).prefixed [C03,C05,C06,C19]
+//@   requires f != nil
+//@   ensures def: result == ((f.PackagePrefix != "" && alias && name != ".") ? f.PackagePrefix + "_" + name : name)
+
 //@ func guessAlias [C05]
 //@   ensures [C05] ident: identLower(result)
 //@   loop 1 invariant alnum: alnumLower(alias)
+//@   loop 1 invariant decoded: firstRune == firstRune(alias) && runeLen == runeLen(alias)
 
 //@ func (*File).register [C03,C04,C05,C06,C08,C18,C19]
 //@   requires f != nil && f.imports != nil && f.imports != f.hints
